@@ -331,12 +331,12 @@ def main(argv):
             c.broken.append("extraction/driver build failed: " + dlog[-600:])
         else:
             correspond(c, "transfer loops: model vs util/file.cc under libvfio", drv, wrapper, lines, chunk=50000)
-        rc, out, err = run_lines(wrapper, lines, timeout=900)
-        if len(out) != len(lines):
-            c.violation("harness-died: hx_sysio stopped after %d of %d cases (rc %s): %s" % (len(out), len(lines), rc, err[-200:]),
-                        {"case": lines[len(out)] if len(out) < len(lines) else None})
-        else:
-            for (line, meta), o in zip(cases, out):
+        out, deaths = run_lines_resilient(wrapper, lines, timeout=900)
+        for idx, rc, err in deaths:
+            c.violation("harness-died: the real loop crashed or hung (rc %s) on case %r: %s" % (rc, lines[idx][:200], err[-300:]),
+                        {"case": lines[idx], "rc": rc, "how": "LD_PRELOAD=libvfio.so hx_sysio <<< '%s'" % lines[idx][:300]})
+        for (line, meta), o in zip(cases, out):
+            if o is not None:
                 oracle(c, line, meta, o)
         # (b) metamorphic: every tool, clean vs seeded short/EINTR schedules on all its descriptors
         metamorphic(c, vfio)
